@@ -370,11 +370,45 @@ func (c *Chan[T]) Close()                 { Close(c) }
 func (c *Chan[T]) RecvCase() *RCase[T]    { return RecvCase(c) }
 func (c *Chan[T]) SendCase(v T) *SCase[T] { return SendCase(c, v) }
 
-// FromDone adapts ctx.Done(): only the nil channel of context.Background()
-// and context.TODO() is supported under the controlled scheduler.
+// FromDone adapts ctx.Done(): the nil channel of context.Background() /
+// context.TODO() stays nil; the channel of a cancellable context is mirrored
+// by a modelled channel that is closed at the first scheduling point after
+// the real one was closed (cancel functions are called by scheduled threads,
+// so this is deterministic; deadlines of the real clock are not modelled).
 func FromDone(c <-chan struct{}) *Chan[struct{}] {
 	if c == nil {
 		return nil
 	}
-	panic("vrt: cancellable contexts are not modelled; pass a modelled cancel channel to Client.Call instead")
+	r := R
+	if r == nil {
+		panic("vrt: FromDone outside a controlled execution")
+	}
+	for _, w := range r.doneWatch {
+		if w.real == c {
+			return w.ch
+		}
+	}
+	w := &doneWatch{real: c, ch: MakeChan[struct{}]()}
+	r.doneWatch = append(r.doneWatch, w)
+	r.pollDone()
+	return w.ch
+}
+
+type doneWatch struct {
+	real <-chan struct{}
+	ch   *Chan[struct{}]
+}
+
+// pollDone mirrors closed context channels (no scheduling point).
+func (r *rt) pollDone() {
+	for _, w := range r.doneWatch {
+		if w.ch.core.closed {
+			continue
+		}
+		select {
+		case <-w.real:
+			w.ch.core.closed = true
+		default:
+		}
+	}
 }
